@@ -27,7 +27,7 @@ def run(tier, seed, ctx):
     open(path, 'w').write('\nreset\n'.join('\n'.join(h) for h in hists) + '\n')
     violations, checked = [], 0
     for prof in ('debug', 'release'):
-        p = subprocess.run(['%s/%s/h_world' % (target, prof), path, 'quiet'], stdout=subprocess.PIPE, stderr=subprocess.PIPE, text=True, timeout=1800)
+        p = subprocess.run(['%s/%s/h_world' % (target, prof), path, 'quiet'], stdout=subprocess.PIPE, stderr=subprocess.PIPE, text=True, errors='replace', timeout=1800)
         blocks = p.stdout.split('\nOP ')
         # blocks per history: len(setup) + 1 + 64 ops
         per = len(setup) + 65
